@@ -8,28 +8,28 @@ TRUSTED = [
     "hand-written interleaving model props/C18/coq/Model.v of cache/cache.go + cache/cleaner.go: one label = one "
     "locked region (getOrCreate, save, recover, Cleanup, Release, rotate, markStale, CleanEmptyGenerations, "
     "ReleaseBuckets) or one atomic Add (tied to /repo by the correspondence run, not verified code)",
-    "Go harness harness/cmd/hC18 (goroutines parked inside their loader callbacks; stable points detected through "
-    "the WaitsTotal metric; read-only export file cache/export_verif_c18.go)",
+    "Go harness harness/cmd/hC18 (goroutines parked inside their loader callbacks, at verifhook.At in save, and a "
+    "NewCache run from the Released() callback of a wrapper bucket; stable points detected through the WaitsTotal "
+    "metric; export file cache/export_verif_c18.go)",
     "wg.Done() merged into the locked region before it; Cleaner.Cleanup's getSize+markStale taken as one step; "
     "float64 ratios 0.05 modelled as integer division by 20 (exact below 2^50); uint64 sizes as Z",
 ]
 ASSUME = [
     "a cache is released only when none of its entries is still loading (no creator inside its loader), and no "
-    "lookup starts on a released cache (callers hold the fraction's use lock) -- hypothesis of C18_accounting, "
-    "witnessed on the real code (class witness-R3) and by Example C18_release_during_load_outside_domain",
-    "CleanEmptyGenerations does not run between a save's unlock and its gen.size.Add for the generation it drops "
-    "(hypothesis of C18_accounting; not schedulable from outside the package; Example "
-    "C18_gc_between_unlock_and_add_outside_domain)",
-    "the listing-level corollary getSize = sum of ALL live entries (and live sum <= limit after a pass) is checked "
-    "by the spec checker on every explored state, but only the per-generation form is proved (PARTIAL)",
-    "interleavings finer than loader boundaries (between save's unlock and its Add) are covered by the theorems "
-    "over the model only, not by the correspondence run",
+    "lookup starts on a released cache (callers hold the fraction's use lock) -- the only domain hypothesis of "
+    "C18_accounting / C18_accounting_total / C18_cleanup_live_bound (race_free); witnessed on the real code (class "
+    "witness-R3) and by Example C18_release_during_load_outside_domain",
+    "loader sizes and entrySize are >= 0 (label_ok; uint64 in the Go code)",
+    "interleavings finer than the schedule points the harness controls (loader callbacks, the Released() scan of "
+    "ReleaseBuckets, verifhook.At(\"cache.save.after-unlock\")) are covered by the theorems over the model only",
 ]
 RULE = ("event lists on the real cache package, model evaluated in Coq on the same list: exhaustive release subsets "
-        "(every subset of 1..5 (thorough 6) caches, every release order for <= 3), random sequential op lists "
+        "(every subset of 1..5 (thorough 6) caches, every release order for <= 3, and each subset again with a NewCache "
+        "landing between ReleaseBuckets' unlocked scan and its locked removal), random sequential op lists "
         "(get/get-with-error/panic/new/release/rotate/cleanup/gc), random schedules with creators parked inside "
-        "their loaders while other goroutines look up / wait / clean / rotate / release, and the regression "
-        "schedules of the repaired races. non-trivial = at least one lookup and one maintenance call with an "
+        "their loaders or at the schedule point after save's unlock while other goroutines look up / wait / clean / "
+        "rotate / release / drop generations, boundary schedules (sizes and limits multiples of 100), and the "
+        "regression schedules of the four repaired races. non-trivial = at least one lookup and one maintenance call with an "
         "effect (rotation, cleaning pass, generations or buckets removed); distinct by event list")
 
 
